@@ -1,6 +1,1348 @@
-//! C04 — not built yet.
-use vcommon::Args;
+//! C04 — decoding untrusted bytes never crashes.
+//!
+//! The main binary (gvariant build) spawns, for each of the four feature builds of `zv` handed
+//! over in `ZV_BINS` (plain, gv, oaa, gv-oaa), a few child processes
+//! (`zv C04 --child <k>/<n> --from <i>`). A child walks its share of a deterministic input list on
+//! a thread with a 2 MiB stack, decodes every input through every applicable target with the real
+//! decoder, re-encodes what decoded, measures the peak allocation of every decode with a counting
+//! global allocator, and reports over stdout (`CURSOR`, `PART <json>`, `DONE` lines). A child that
+//! dies (abort, stack overflow, signal) is restarted in single-step mode at its last cursor so that
+//! the crashing input and target are identified exactly, then restarted after it.
+//!
+//! Inputs (per build and format):
+//!  S1  every byte string of length ≤ L over {00,01,02,04,08,'a','/',80,ff} (L = 4 quick, 5
+//!      thorough), both byte orders → every type with ≤ 2 nodes (+ a bank of 3-node container
+//!      types), typed Rust target and dynamic targets;
+//!  S2  every string of length ≤ L+1 over a signature-flavoured alphabet → `Value`;
+//!  S3  every single-byte substitution over the alphabet and every truncation of the reference
+//!      encodings of all values of those types (start positions 0 and 3), and of the variant-wrapped
+//!      values of all types with ≤ 3 nodes; thorough adds substitution pairs within 8 bytes;
+//!  S4  structural stress: variant signatures of every bracket kind (255 bytes; far longer in
+//!      GVariant where nothing bounds the signature length), variant signatures over a signature
+//!      alphabet, variant chains to depth 100 (and 1000/10000), GVariant framing-offset bytes set to
+//!      every byte value, wide tuples of strings around the 256-byte offset-width threshold.
+//!
+//! Oracle: no panic, no abnormal child exit, peak allocation of a decode ≤ 64 KiB + 64 × input
+//! length, re-encoding a decoded value does not panic.
 
-pub fn main(_args: &Args) -> i32 {
-    vcommon::machinery_failure("C04: check not built yet")
+use serde_json::{json, Value as J};
+use std::alloc::{GlobalAlloc, Layout, System};
+use std::cell::Cell;
+use std::collections::{BTreeMap, HashSet};
+use vcommon::{hash64, Args, Report, Violation};
+
+use crate::c05::{ctx, err_class, Fmt};
+use crate::rv::{self, FdTable, Ty, RV};
+
+// ------------------------------------------------------------------------------------------
+// counting allocator (per-thread live bytes and peak since the last reset)
+// ------------------------------------------------------------------------------------------
+
+pub struct Counting;
+
+thread_local! {
+    static LIVE: Cell<isize> = const { Cell::new(0) };
+    static PEAK: Cell<isize> = const { Cell::new(0) };
+}
+
+#[inline]
+fn bump(delta: isize) {
+    let _ = LIVE.try_with(|l| {
+        let v = l.get().wrapping_add(delta);
+        l.set(v);
+        if delta > 0 {
+            let _ = PEAK.try_with(|p| {
+                if v > p.get() {
+                    p.set(v)
+                }
+            });
+        }
+    });
+}
+
+unsafe impl GlobalAlloc for Counting {
+    unsafe fn alloc(&self, l: Layout) -> *mut u8 {
+        let p = System.alloc(l);
+        if !p.is_null() {
+            bump(l.size() as isize);
+        }
+        p
+    }
+    unsafe fn dealloc(&self, p: *mut u8, l: Layout) {
+        System.dealloc(p, l);
+        bump(-(l.size() as isize));
+    }
+    unsafe fn alloc_zeroed(&self, l: Layout) -> *mut u8 {
+        let p = System.alloc_zeroed(l);
+        if !p.is_null() {
+            bump(l.size() as isize);
+        }
+        p
+    }
+    unsafe fn realloc(&self, p: *mut u8, l: Layout, new: usize) -> *mut u8 {
+        let q = System.realloc(p, l, new);
+        if !q.is_null() {
+            bump(new as isize - l.size() as isize);
+        }
+        q
+    }
+}
+
+#[global_allocator]
+static GLOBAL: Counting = Counting;
+
+fn alloc_reset() {
+    LIVE.with(|l| l.set(0));
+    PEAK.with(|p| p.set(0));
+}
+fn alloc_peak() -> usize {
+    PEAK.with(|p| p.get()).max(0) as usize
+}
+
+// ------------------------------------------------------------------------------------------
+// build configuration
+// ------------------------------------------------------------------------------------------
+
+fn config_name() -> &'static str {
+    match (cfg!(feature = "gvariant"), cfg!(feature = "option-as-array")) {
+        (false, false) => "plain",
+        (true, false) => "gv",
+        (false, true) => "oaa",
+        (true, true) => "gv-oaa",
+    }
+}
+
+fn formats() -> Vec<Fmt> {
+    if cfg!(feature = "gvariant") {
+        vec![Fmt::DBus, Fmt::GV]
+    } else {
+        vec![Fmt::DBus]
+    }
+}
+
+const ALPHA: [u8; 9] = [0x00, 0x01, 0x02, 0x04, 0x08, b'a', b'/', 0x80, 0xff];
+/// signature-flavoured alphabet for inputs aimed at variants
+const ALPHA_SIG: [u8; 10] = [0x00, 0x01, 0x02, 0x04, b'a', b'y', b's', b'v', b'(', b')'];
+
+// ------------------------------------------------------------------------------------------
+// decode targets
+// ------------------------------------------------------------------------------------------
+
+#[derive(Debug, Clone, PartialEq)]
+enum Out {
+    Ok,
+    Err(String),
+    Panic(String),
+    ReencodePanic(String),
+}
+
+fn panic_site() -> String {
+    let loc = vcommon::last_panic_location();
+    // stable across checkouts: keep the path from the crate directory on
+    for marker in ["zvariant_utils/", "zvariant/", "zbus_names/"] {
+        if let Some(i) = loc.find(marker) {
+            return loc[i..].to_string();
+        }
+    }
+    loc
+}
+
+type Data<'a> = zvariant::serialized::Data<'a, 'a>;
+
+fn typed<'d, T>(data: &'d Data<'d>) -> Out
+where
+    T: serde::Deserialize<'d> + zvariant::Type + serde::Serialize,
+{
+    alloc_reset();
+    let r = vcommon::catch(|| data.deserialize::<T>());
+    match r {
+        Err(p) => Out::Panic(format!("{p} at {}", panic_site())),
+        Ok(Err(e)) => Out::Err(err_class(&e)),
+        Ok(Ok((v, _n))) => {
+            let c = data.context();
+            match vcommon::catch(|| zvariant::to_bytes(c, &v).map(|_| ())) {
+                Err(p) => Out::ReencodePanic(format!("{p} at {}", panic_site())),
+                Ok(_) => Out::Ok,
+            }
+        }
+    }
+}
+
+/// `Value` target for an explicit signature.
+fn dyn_value<'d>(data: &'d Data<'d>, sig: &zvariant::Signature) -> Out {
+    alloc_reset();
+    let r = vcommon::catch(|| data.deserialize_for_signature::<_, zvariant::Value<'d>>(sig));
+    match r {
+        Err(p) => Out::Panic(format!("{p} at {}", panic_site())),
+        Ok(Err(e)) => Out::Err(err_class(&e)),
+        Ok(Ok((v, _))) => {
+            let c = data.context();
+            match vcommon::catch(|| zvariant::to_bytes(c, &v).map(|_| ())) {
+                Err(p) => Out::ReencodePanic(format!("{p} at {}", panic_site())),
+                Ok(_) => Out::Ok,
+            }
+        }
+    }
+}
+
+fn dyn_container<'d>(data: &'d Data<'d>, sig: &zvariant::Signature) -> Option<Out> {
+    use zvariant::Signature as S;
+    alloc_reset();
+    let c = data.context();
+    macro_rules! go {
+        ($t:ty) => {{
+            let r = vcommon::catch(|| data.deserialize_for_dynamic_signature::<_, $t>(sig));
+            Some(match r {
+                Err(p) => Out::Panic(format!("{p} at {}", panic_site())),
+                Ok(Err(e)) => Out::Err(err_class(&e)),
+                Ok(Ok((v, _))) => match vcommon::catch(|| zvariant::to_bytes(c, &v).map(|_| ())) {
+                    Err(p) => Out::ReencodePanic(format!("{p} at {}", panic_site())),
+                    Ok(_) => Out::Ok,
+                },
+            })
+        }};
+    }
+    match sig {
+        S::Array(_) => go!(zvariant::Array<'d>),
+        S::Structure(_) => go!(zvariant::Structure<'d>),
+        _ => None,
+    }
+}
+
+macro_rules! t_id { ($t:ty) => { $t }; }
+macro_rules! t_vec { ($t:ty) => { Vec<$t> }; }
+macro_rules! t_tup { ($t:ty) => { ($t,) }; }
+#[cfg(any(feature = "gvariant", feature = "option-as-array"))]
+macro_rules! t_opt { ($t:ty) => { Option<$t> }; }
+
+macro_rules! by_leaf {
+    ($leaf:expr, $wrap:ident, $data:expr) => {
+        match $leaf {
+            Ty::Y => typed::<$wrap!(u8)>($data),
+            Ty::B => typed::<$wrap!(bool)>($data),
+            Ty::N => typed::<$wrap!(i16)>($data),
+            Ty::Q => typed::<$wrap!(u16)>($data),
+            Ty::I => typed::<$wrap!(i32)>($data),
+            Ty::U => typed::<$wrap!(u32)>($data),
+            Ty::X => typed::<$wrap!(i64)>($data),
+            Ty::T => typed::<$wrap!(u64)>($data),
+            Ty::D => typed::<$wrap!(f64)>($data),
+            Ty::S => typed::<$wrap!(String)>($data),
+            Ty::O => typed::<$wrap!(zvariant::OwnedObjectPath)>($data),
+            Ty::G => typed::<$wrap!(zvariant::Signature)>($data),
+            Ty::V => typed::<$wrap!(zvariant::Value<'_>)>($data),
+            Ty::H => typed::<$wrap!(zvariant::OwnedFd)>($data),
+            _ => unreachable!("by_leaf on a container"),
+        }
+    };
+}
+
+/// A type the inputs are decoded as, with its applicable routes.
+struct Target {
+    ty_sig: String,
+    sig: zvariant::Signature,
+    ty: Option<Ty>,
+    /// extra bank entry index (typed route for 3-node types)
+    bank: Option<usize>,
+}
+
+type HM<K, V> = std::collections::HashMap<K, V>;
+
+const BANK: &[&str] = &[
+    "a{sv}", "a{ys}", "a{sy}", "(sy)", "(ss)", "(ys)", "aay", "aas", "a(sy)", "(asy)", "av", "(vy)", "(sv)",
+    "a{sas}", "(sss)",
+    #[cfg(feature = "gvariant")]
+    "mas",
+    #[cfg(feature = "gvariant")]
+    "ams",
+    #[cfg(feature = "gvariant")]
+    "(msy)",
+];
+
+fn bank_typed<'d>(i: usize, data: &'d Data<'d>) -> Out {
+    use zvariant::Value as V;
+    match BANK[i] {
+        "a{sv}" => typed::<HM<String, V<'_>>>(data),
+        "a{ys}" => typed::<HM<u8, String>>(data),
+        "a{sy}" => typed::<HM<String, u8>>(data),
+        "(sy)" => typed::<(String, u8)>(data),
+        "(ss)" => typed::<(String, String)>(data),
+        "(ys)" => typed::<(u8, String)>(data),
+        "aay" => typed::<Vec<Vec<u8>>>(data),
+        "aas" => typed::<Vec<Vec<String>>>(data),
+        "a(sy)" => typed::<Vec<(String, u8)>>(data),
+        "(asy)" => typed::<(Vec<String>, u8)>(data),
+        "av" => typed::<Vec<V<'_>>>(data),
+        "(vy)" => typed::<(V<'_>, u8)>(data),
+        "(sv)" => typed::<(String, V<'_>)>(data),
+        "a{sas}" => typed::<HM<String, Vec<String>>>(data),
+        "(sss)" => typed::<(String, String, String)>(data),
+        #[cfg(all(feature = "gvariant", not(feature = "option-as-array")))]
+        "mas" => typed::<Option<Vec<String>>>(data),
+        #[cfg(all(feature = "gvariant", not(feature = "option-as-array")))]
+        "ams" => typed::<Vec<Option<String>>>(data),
+        #[cfg(all(feature = "gvariant", not(feature = "option-as-array")))]
+        "(msy)" => typed::<(Option<String>, u8)>(data),
+        // with option-as-array `Option<T>` has an array signature; the dynamic routes still cover `m`
+        _ => Out::Err("no-typed-target".into()),
+    }
+}
+
+fn targets() -> Vec<Target> {
+    let mut tys: Vec<Ty> = rv::all_types(2, cfg!(feature = "gvariant"));
+    // maybe types exist only in gvariant builds (the signature parser rejects `m` otherwise)
+    tys.retain(|t| cfg!(feature = "gvariant") || !t.contains(&|x| matches!(x, Ty::Maybe(_))));
+    let mut out: Vec<Target> = tys
+        .into_iter()
+        .map(|t| Target {
+            ty_sig: t.sig(),
+            sig: rv::zsig(&t),
+            ty: Some(t),
+            bank: None,
+        })
+        .collect();
+    for (i, s) in BANK.iter().enumerate() {
+        out.push(Target {
+            ty_sig: s.to_string(),
+            sig: zvariant::Signature::try_from(*s).expect("bank signature"),
+            ty: rv::parse_ty(s),
+            bank: Some(i),
+        });
+    }
+    out
+}
+
+const ROUTES: [&str; 3] = ["typed", "value-for-signature", "dynamic-container"];
+
+/// Run route `r` of target `t` on `data`; `None` when the route does not apply.
+fn run_route<'d>(t: &Target, r: usize, data: &'d Data<'d>) -> Option<Out> {
+    match r {
+        0 => {
+            if let Some(b) = t.bank {
+                return Some(bank_typed(b, data));
+            }
+            let ty = t.ty.as_ref()?;
+            Some(match ty {
+                Ty::Array(e) => by_leaf!(&**e, t_vec, data),
+                Ty::Struct(fs) if fs.len() == 1 => by_leaf!(&fs[0], t_tup, data),
+                #[cfg(all(feature = "gvariant", not(feature = "option-as-array")))]
+                Ty::Maybe(e) => by_leaf!(&**e, t_opt, data),
+                #[cfg(all(feature = "option-as-array", not(feature = "gvariant")))]
+                Ty::Maybe(_) => return None,
+                // with both features `Option<T>` is typed as an array; `mT` keeps its dynamic routes
+                #[cfg(all(feature = "gvariant", feature = "option-as-array"))]
+                Ty::Maybe(_) => return None,
+                #[cfg(not(any(feature = "gvariant", feature = "option-as-array")))]
+                Ty::Maybe(_) => return None,
+                leaf if leaf.nodes() == 1 => by_leaf!(leaf, t_id, data),
+                _ => return None,
+            })
+        }
+        1 => Some(dyn_value(data, &t.sig)),
+        2 => dyn_container(data, &t.sig),
+        _ => None,
+    }
+}
+
+/// `Option<T>` typed as an array (option-as-array builds): an extra typed route for `aT` targets.
+#[cfg(feature = "option-as-array")]
+fn run_option_as_array<'d>(t: &Target, data: &'d Data<'d>) -> Option<Out> {
+    match t.ty.as_ref()? {
+        Ty::Array(e) if e.nodes() == 1 => Some(by_leaf!(&**e, t_opt, data)),
+        _ => None,
+    }
+}
+#[cfg(not(feature = "option-as-array"))]
+fn run_option_as_array<'d>(_t: &Target, _data: &'d Data<'d>) -> Option<Out> {
+    None
+}
+
+// ------------------------------------------------------------------------------------------
+// inputs
+// ------------------------------------------------------------------------------------------
+
+#[derive(Clone, Copy, PartialEq, Eq, Debug)]
+enum Aim {
+    /// every target
+    All,
+    /// the target with this index in `targets()`
+    One(usize),
+    /// the `v` target only
+    Variant,
+}
+
+struct Input<'a> {
+    section: &'static str,
+    fmt: Fmt,
+    be: bool,
+    pos: usize,
+    bytes: &'a [u8],
+    aim: Aim,
+}
+
+fn strings_over(alpha: &[u8], max_len: usize, mut f: impl FnMut(&[u8])) {
+    let n = vcommon::enumerate::count_strings(alpha.len(), max_len);
+    let mut idx = vec![];
+    let mut buf = vec![];
+    for i in 0..n {
+        vcommon::enumerate::nth_string(alpha.len(), i, &mut idx);
+        buf.clear();
+        buf.extend(idx.iter().map(|j| alpha[*j]));
+        f(&buf);
+    }
+}
+
+fn reference_bytes(v: &RV, fmt: Fmt, be: bool, pos: usize) -> Vec<u8> {
+    match fmt {
+        Fmt::DBus => crate::refdbus::encode(v, be, pos).buf,
+        Fmt::GV => crate::refgv::serialize(v, be, pos),
+    }
+}
+
+/// D-Bus variant holding a value of signature `sig` whose body is `body` (already aligned).
+fn dbus_variant(sig: &[u8], body: &[u8]) -> Vec<u8> {
+    let mut out = vec![sig.len().min(255) as u8];
+    out.extend_from_slice(sig);
+    out.push(0);
+    while out.len() % 8 != 0 {
+        out.push(0);
+    }
+    out.extend_from_slice(body);
+    out
+}
+
+fn gv_variant(sig: &[u8], body: &[u8]) -> Vec<u8> {
+    let mut out = body.to_vec();
+    out.push(0);
+    out.extend_from_slice(sig);
+    out
+}
+
+fn bracket_signatures(len: usize) -> Vec<(String, Vec<u8>)> {
+    let rep = |s: &str, n: usize| s.repeat(n).into_bytes();
+    let mut out = vec![
+        ("a*".to_string(), rep("a", len)),
+        ("(*".to_string(), rep("(", len)),
+        (")*".to_string(), rep(")", len)),
+        ("{*".to_string(), rep("{", len)),
+        ("}*".to_string(), rep("}", len)),
+        ("a{*".to_string(), rep("a{", len / 2)),
+        ("a{y*".to_string(), rep("a{y", len / 3)),
+        ("v*".to_string(), rep("v", len)),
+        ("m*".to_string(), rep("m", len)),
+        ("y*".to_string(), rep("y", len)),
+    ];
+    // balanced / complete deep types
+    let mut s = rep("a", len.saturating_sub(1));
+    s.push(b'y');
+    out.push(("a*y".to_string(), s));
+    let k = len.saturating_sub(1) / 2;
+    let mut s = rep("(", k);
+    s.push(b'y');
+    s.extend(rep(")", k));
+    out.push(("(*y)*".to_string(), s));
+    let k = len.saturating_sub(1) / 4;
+    let mut s = rep("a{y", k);
+    s.push(b'y');
+    s.extend(rep("}", k));
+    out.push(("a{y*y}*".to_string(), s));
+    let mut s = rep("m", len.saturating_sub(1));
+    s.push(b'y');
+    out.push(("m*y".to_string(), s));
+    let k = len.saturating_sub(1) / 2;
+    let mut s = rep("a(", k);
+    s.push(b'y');
+    s.extend(rep(")", k));
+    out.push(("a(*y)*".to_string(), s));
+    out
+}
+
+/// Walk every input of this build in a fixed order. `f(index, input)`.
+fn for_each_input(tier: vcommon::Tier, tgts: &[Target], mut f: impl FnMut(u64, &Input<'_>)) {
+    let thorough = tier == vcommon::Tier::Thorough;
+    let mut idx = 0u64;
+    let mut emit = |i: &Input<'_>| {
+        f(idx, i);
+        idx += 1;
+    };
+    let fmts = formats();
+
+    // S1: exhaustive strings over the byte alphabet
+    let l1 = tier.pick(4, 5);
+    for fmt in &fmts {
+        for be in [false, true] {
+            strings_over(&ALPHA, l1, |b| {
+                emit(&Input { section: "S1-strings", fmt: *fmt, be, pos: 0, bytes: b, aim: Aim::All })
+            });
+        }
+    }
+    // S2: exhaustive strings over the signature-flavoured alphabet, for variants
+    for fmt in &fmts {
+        strings_over(&ALPHA_SIG, l1 + 1, |b| {
+            emit(&Input { section: "S2-sig-strings", fmt: *fmt, be: false, pos: 0, bytes: b, aim: Aim::Variant })
+        });
+    }
+
+    // S3: mutations of valid encodings
+    let dom = rv::Domain { cap: 8, variant_payloads: rv::all_types(2, false), exotic_floats: false };
+    let mut capped = false;
+    let mut mutate = |section: &'static str, fmt: Fmt, be: bool, pos: usize, enc: &[u8], aim: Aim,
+                      emit: &mut dyn FnMut(&Input<'_>)| {
+        // the unmodified encoding, every truncation, every substitution
+        for cut in 0..=enc.len() {
+            emit(&Input { section, fmt, be, pos, bytes: &enc[..cut], aim });
+        }
+        let mut m = enc.to_vec();
+        for i in 0..enc.len() {
+            for a in ALPHA {
+                if a == enc[i] {
+                    continue;
+                }
+                m[i] = a;
+                emit(&Input { section, fmt, be, pos, bytes: &m, aim });
+                if thorough {
+                    for j in (i + 1)..enc.len().min(i + 8) {
+                        let keep = m[j];
+                        for b in [0x00u8, 0x01, 0xff, b'a'] {
+                            if b == keep {
+                                continue;
+                            }
+                            m[j] = b;
+                            emit(&Input { section, fmt, be, pos, bytes: &m, aim });
+                        }
+                        m[j] = keep;
+                    }
+                }
+            }
+            m[i] = enc[i];
+        }
+    };
+    for (ti, t) in tgts.iter().enumerate() {
+        let Some(ty) = &t.ty else { continue };
+        for v in rv::values(ty, &dom, &mut capped) {
+            for fmt in &fmts {
+                if *fmt == Fmt::DBus && ty.contains(&|x| matches!(x, Ty::Maybe(_))) {
+                    continue; // no D-Bus encoding exists
+                }
+                for (be, pos) in [(false, 0usize), (true, 0), (false, 3)] {
+                    let enc = reference_bytes(&v, *fmt, be, pos);
+                    mutate("S3-mutations", *fmt, be, pos, &enc, Aim::One(ti), &mut emit);
+                }
+            }
+        }
+    }
+    // variant-wrapped values of every type with ≤ 3 nodes
+    let dom3 = rv::Domain { cap: 4, variant_payloads: rv::all_types(1, false), exotic_floats: false };
+    for ty in rv::all_types(3, cfg!(feature = "gvariant")) {
+        let has_maybe = ty.contains(&|x| matches!(x, Ty::Maybe(_)));
+        let mut vals = rv::values(&ty, &dom3, &mut capped);
+        if !thorough && vals.len() > 3 {
+            vals = vec![vals[0].clone(), vals[vals.len() / 2].clone(), vals[vals.len() - 1].clone()];
+        }
+        for v in vals {
+            let wrapped = RV::V(Box::new((ty.clone(), v)));
+            for fmt in &fmts {
+                if *fmt == Fmt::DBus && has_maybe {
+                    continue;
+                }
+                let enc = reference_bytes(&wrapped, *fmt, false, 0);
+                mutate("S3-variant-mutations", *fmt, false, 0, &enc, Aim::Variant, &mut emit);
+            }
+        }
+    }
+
+    // S4a: variant signatures of every bracket kind
+    for fmt in &fmts {
+        let lens: Vec<usize> = match fmt {
+            Fmt::DBus => vec![255],
+            // nothing bounds the signature length of a GVariant variant
+            Fmt::GV => vec![255, 1000, 10_000, 100_000],
+        };
+        for len in lens {
+            for (_name, sig) in bracket_signatures(len) {
+                for body_len in [0usize, 8, 64] {
+                    let body = vec![0u8; body_len];
+                    let bytes = match fmt {
+                        Fmt::DBus => dbus_variant(&sig, &body),
+                        Fmt::GV => gv_variant(&sig, &body),
+                    };
+                    emit(&Input { section: "S4-bracket-signatures", fmt: *fmt, be: false, pos: 0, bytes: &bytes, aim: Aim::Variant });
+                }
+            }
+        }
+    }
+    // S4b: variant signatures over a signature alphabet (every string ≤ 4), with three bodies
+    let sig_alpha: Vec<u8> = b"ysva(){}mh".to_vec();
+    for fmt in &fmts {
+        strings_over(&sig_alpha, tier.pick(4, 5), |sig| {
+            for body in [&[][..], &[0u8; 8][..], &[1u8, 0, 0, 0, 0, 0, 0, 0, 1, 0, 0, 0, b'a', 0, 0, 0][..]] {
+                let bytes = match fmt {
+                    Fmt::DBus => dbus_variant(sig, body),
+                    Fmt::GV => gv_variant(sig, body),
+                };
+                emit(&Input { section: "S4-variant-signatures", fmt: *fmt, be: false, pos: 0, bytes: &bytes, aim: Aim::Variant });
+            }
+        });
+    }
+    // S4c: variant chains
+    let mut depths: Vec<usize> = (1..=100).collect();
+    depths.extend([1000, 10_000]);
+    for fmt in &fmts {
+        for d in &depths {
+            let bytes = match fmt {
+                Fmt::DBus => {
+                    let mut b = vec![];
+                    for _ in 0..d - 1 {
+                        b.extend_from_slice(&[1, b'v', 0]);
+                    }
+                    b.extend_from_slice(&[1, b'y', 0, 7]);
+                    b
+                }
+                Fmt::GV => {
+                    let mut b = vec![7u8, 0, b'y'];
+                    for _ in 0..d - 1 {
+                        b.extend_from_slice(&[0, b'v']);
+                    }
+                    b
+                }
+            };
+            emit(&Input { section: "S4-variant-chains", fmt: *fmt, be: false, pos: 0, bytes: &bytes, aim: Aim::Variant });
+            // the same chain as the element of an array / field of a struct
+            emit(&Input { section: "S4-variant-chains", fmt: *fmt, be: false, pos: 0, bytes: &bytes, aim: Aim::All });
+        }
+    }
+    // S4d: GVariant framing offsets set to every byte value
+    if fmts.contains(&Fmt::GV) {
+        let strs = |xs: &[&str]| RV::Array(Ty::S, xs.iter().map(|x| RV::S(x.to_string())).collect());
+        let ay = |n: usize| RV::Array(Ty::Y, vec![RV::Y(1); n]);
+        let var = |v: RV| RV::V(Box::new((v.ty(), v)));
+        let seeds: Vec<RV> = vec![
+            strs(&["a", "bc"]),
+            strs(&["", "", ""]),
+            RV::Array(Ty::Array(Box::new(Ty::Y)), vec![ay(2), ay(0), ay(1)]),
+            RV::Struct(vec![RV::S("ab".into()), RV::Y(1)]),
+            RV::Struct(vec![RV::S("a".into()), RV::S("b".into()), RV::S("c".into())]),
+            RV::Struct(vec![strs(&["x"]), RV::Y(2)]),
+            RV::Dict(Ty::S, Ty::V, vec![(RV::S("k".into()), var(RV::U(5)))]),
+            RV::Dict(Ty::S, Ty::Y, vec![(RV::S("k".into()), RV::Y(5)), (RV::S("l".into()), RV::Y(6))]),
+            RV::Dict(Ty::S, Ty::Array(Box::new(Ty::S)), vec![(RV::S("k".into()), strs(&["v"]))]),
+            RV::Array(Ty::V, vec![var(RV::Y(1)), var(RV::S("s".into()))]),
+            RV::Maybe(Ty::Array(Box::new(Ty::S)), Some(Box::new(strs(&["q"])))),
+            RV::Array(Ty::Maybe(Box::new(Ty::S)), vec![RV::Maybe(Ty::S, Some(Box::new(RV::S("z".into())))), RV::Maybe(Ty::S, None)]),
+            RV::Struct(vec![RV::Maybe(Ty::S, Some(Box::new(RV::S("z".into())))), RV::Y(3)]),
+        ];
+        for seed in seeds {
+            let wrapped = RV::V(Box::new((seed.ty(), seed.clone())));
+            let ti = tgts.iter().position(|t| t.ty_sig == seed.ty().sig());
+            for (value, aim) in [(wrapped, Aim::Variant), (seed.clone(), ti.map(Aim::One).unwrap_or(Aim::Variant))] {
+                if aim == Aim::Variant && !matches!(value, RV::V(_)) {
+                    continue;
+                }
+                let enc = crate::refgv::normal_form(&value, false);
+                let mut m = enc.clone();
+                // the framing offsets live in the tail; sweep the last 6 bytes through all values,
+                // singly and (over the alphabet) in adjacent pairs
+                let tail = enc.len().saturating_sub(6);
+                for i in tail..enc.len() {
+                    for b in 0..=255u8 {
+                        m[i] = b;
+                        emit(&Input { section: "S4-framing-offsets", fmt: Fmt::GV, be: false, pos: 0, bytes: &m, aim });
+                    }
+                    m[i] = enc[i];
+                    if i + 1 < enc.len() {
+                        for a in ALPHA {
+                            for b in ALPHA {
+                                m[i] = a;
+                                m[i + 1] = b;
+                                emit(&Input { section: "S4-framing-offsets", fmt: Fmt::GV, be: false, pos: 0, bytes: &m, aim });
+                            }
+                        }
+                        m[i] = enc[i];
+                        m[i + 1] = enc[i + 1];
+                    }
+                }
+            }
+        }
+        // S4e: wide tuples of strings inside a variant, sizes around the offset-width thresholds
+        for k in [2usize, 3, 64, 127, 128, 129, 130, 200, 253] {
+            let mut sig = vec![b'('];
+            sig.extend(std::iter::repeat(b's').take(k));
+            sig.push(b')');
+            let mut lens: Vec<usize> = (0..=10).collect();
+            lens.extend(250..=262);
+            lens.extend(380..=390);
+            lens.extend(505..=520);
+            for body_len in lens {
+                for fill in ALPHA {
+                    let bytes = gv_variant(&sig, &vec![fill; body_len]);
+                    emit(&Input { section: "S4-wide-tuples", fmt: Fmt::GV, be: false, pos: 0, bytes: &bytes, aim: Aim::Variant });
+                }
+            }
+        }
+    }
+}
+
+// ------------------------------------------------------------------------------------------
+// child
+// ------------------------------------------------------------------------------------------
+
+const BATCH: u64 = 512;
+const ALLOC_BASE: usize = 64 * 1024;
+const ALLOC_FACTOR: usize = 64;
+
+struct Part {
+    evals: u64,
+    inputs: u64,
+    outcomes: BTreeMap<String, u64>,
+    violations: Vec<J>,
+    kept: BTreeMap<String, u32>,
+    nontrivial: HashSet<u64>,
+    nontrivial_new: u64,
+    samples: Vec<J>,
+    max_peak: usize,
+}
+
+impl Part {
+    fn new() -> Self {
+        Part {
+            evals: 0,
+            inputs: 0,
+            outcomes: BTreeMap::new(),
+            violations: vec![],
+            kept: BTreeMap::new(),
+            nontrivial: HashSet::new(),
+            nontrivial_new: 0,
+            samples: vec![],
+            max_peak: 0,
+        }
+    }
+    fn flush(&mut self) {
+        let j = json!({
+            "evals": self.evals, "inputs": self.inputs, "outcomes": self.outcomes,
+            "violations": self.violations, "nontrivial": self.nontrivial_new, "samples": self.samples,
+            "max_peak": self.max_peak,
+        });
+        println!("PART {j}");
+        self.evals = 0;
+        self.inputs = 0;
+        self.outcomes.clear();
+        self.violations.clear();
+        self.nontrivial_new = 0;
+        self.samples.clear();
+    }
+    fn violation(&mut self, clause: &str, feats: &[(&str, String)], detail: String, replay: J) {
+        let ident = format!("{clause}|{feats:?}");
+        let n = self.kept.entry(ident).or_insert(0);
+        *n += 1;
+        if *n > 2 {
+            // count it, keep no more artefacts of the same identity
+            *self.outcomes.entry(format!("violating:{clause}")).or_insert(0) += 1;
+            return;
+        }
+        *self.outcomes.entry(format!("violating:{clause}")).or_insert(0) += 1;
+        let f: BTreeMap<&str, &String> = feats.iter().map(|(k, v)| (*k, v)).collect();
+        self.violations.push(json!({"clause": clause, "features": f, "detail": detail, "replay": replay}));
+    }
+}
+
+fn replay_payload(i: &Input<'_>, target: &str, route: &str) -> J {
+    json!({"config": config_name(), "section": i.section, "format": i.fmt.name(), "be": i.be, "pos": i.pos,
+           "bytes": vcommon::hex(i.bytes), "target": target, "route": route})
+}
+
+fn short_hex(b: &[u8]) -> String {
+    crate::refgv::short_hex(b)
+}
+
+/// Evaluate one (input, target, route); `fine` prints a cursor line first.
+#[allow(clippy::too_many_arguments)]
+fn eval_one(
+    part: &mut Part,
+    idx: u64,
+    inp: &Input<'_>,
+    data: &Data<'_>,
+    t: &Target,
+    ti: usize,
+    route: usize,
+    fine: bool,
+) -> bool {
+    if fine {
+        println!("CURSOR {idx} {ti} {route}");
+    }
+    let out = if route == 3 { run_option_as_array(t, data) } else { run_route(t, route, data) };
+    let Some(out) = out else { return false };
+    let peak = alloc_peak();
+    part.evals += 1;
+    part.max_peak = part.max_peak.max(peak);
+    let rname = if route == 3 { "typed-option-as-array" } else { ROUTES[route] };
+    let descr = || {
+        format!(
+            "[{}] {} {} pos={} {} bytes {} as `{}` via {}",
+            config_name(),
+            inp.fmt.name(),
+            if inp.be { "BE" } else { "LE" },
+            inp.pos,
+            inp.bytes.len(),
+            short_hex(inp.bytes),
+            t.ty_sig,
+            rname
+        )
+    };
+    let base = |extra: Vec<(&'static str, String)>| {
+        let mut f = vec![("format", inp.fmt.name().to_string()), ("config", config_name().to_string())];
+        f.extend(extra);
+        f
+    };
+    let cls = match &out {
+        Out::Ok => "ok".to_string(),
+        Out::Err(c) => format!("err:{c}"),
+        Out::Panic(_) => "panic".into(),
+        Out::ReencodePanic(_) => "reencode-panic".into(),
+    };
+    *part.outcomes.entry(format!("{}/{}", inp.fmt.name(), cls)).or_insert(0) += 1;
+    match &out {
+        Out::Panic(p) => {
+            let site = p.rsplit(" at ").next().unwrap_or("").to_string();
+            part.violation(
+                "no-panic",
+                &base(vec![("panic_at", site)]),
+                format!("{}: decoder panicked: {p}", descr()),
+                replay_payload(inp, &t.ty_sig, rname),
+            );
+        }
+        Out::ReencodePanic(p) => {
+            let site = p.rsplit(" at ").next().unwrap_or("").to_string();
+            part.violation(
+                "reencode-no-panic",
+                &base(vec![("panic_at", site)]),
+                format!("{}: decoded fine, re-encoding panicked: {p}", descr()),
+                replay_payload(inp, &t.ty_sig, rname),
+            );
+        }
+        _ => {}
+    }
+    if peak > ALLOC_BASE + ALLOC_FACTOR * inp.bytes.len() {
+        part.violation(
+            "bounded-allocation",
+            &base(vec![("target_kind", target_kind(t)), ("route", rname.to_string())]),
+            format!("{}: peak allocation {} bytes for a {}-byte input", descr(), peak, inp.bytes.len()),
+            replay_payload(inp, &t.ty_sig, rname),
+        );
+    }
+    matches!(out, Out::Ok)
+}
+
+fn target_kind(t: &Target) -> String {
+    match t.ty_sig.as_bytes().first() {
+        Some(b'a') if t.ty_sig.starts_with("a{") => "dict".into(),
+        Some(b'a') => "array".into(),
+        Some(b'(') => "struct".into(),
+        Some(b'm') => "maybe".into(),
+        Some(b'v') => "variant".into(),
+        _ => "basic".into(),
+    }
+}
+
+fn eval_input(part: &mut Part, idx: u64, inp: &Input<'_>, tgts: &[Target], vi: usize, fds: &FdTable, fine: bool, resume_after: Option<(usize, usize)>) {
+    use std::os::fd::AsFd;
+    let Some(c) = ctx(inp.fmt, inp.be, inp.pos) else { return };
+    let data: Data<'_> = zvariant::serialized::Data::new_borrowed_fds(inp.bytes, c, fds.fds.iter().map(|f| f.as_fd()));
+    part.inputs += 1;
+    let mut any_ok = false;
+    let range: Vec<usize> = match inp.aim {
+        Aim::All => (0..tgts.len()).collect(),
+        Aim::One(i) => vec![i],
+        Aim::Variant => vec![vi],
+    };
+    for ti in range {
+        for route in 0..4 {
+            if let Some(o) = resume_after {
+                if (ti, route) <= o {
+                    continue;
+                }
+            }
+            // D-Bus has no maybe: those targets still run (the decoder has to answer with an error)
+            any_ok |= eval_one(part, idx, inp, &data, &tgts[ti], ti, route, fine);
+        }
+    }
+    if any_ok {
+        let h = hash64(&(inp.bytes, inp.fmt.name(), inp.be, inp.pos));
+        if part.nontrivial.insert(h) {
+            part.nontrivial_new += 1;
+        }
+        if part.samples.len() < 2 && idx % 977 == 0 {
+            part.samples.push(json!({"config": config_name(), "section": inp.section, "format": inp.fmt.name(),
+                "bytes": short_hex(inp.bytes), "decoded_by_some_target": true}));
+        }
+    }
+}
+
+fn arg_after<'a>(extra: &'a [String], key: &str) -> Option<&'a str> {
+    extra.iter().position(|a| a == key).and_then(|i| extra.get(i + 1)).map(|s| s.as_str())
+}
+
+fn child_main(args: &Args) -> i32 {
+    let shard = arg_after(&args.extra, "--child").unwrap_or("0/1");
+    let (k, n): (u64, u64) = {
+        let mut it = shard.split('/');
+        (
+            it.next().and_then(|s| s.parse().ok()).unwrap_or(0),
+            it.next().and_then(|s| s.parse().ok()).unwrap_or(1),
+        )
+    };
+    let from: u64 = arg_after(&args.extra, "--from").and_then(|s| s.parse().ok()).unwrap_or(0);
+    // single-step range [a, b): cursor lines per (input, target, route)
+    let fine: Option<(u64, u64)> = arg_after(&args.extra, "--fine").and_then(|s| {
+        let mut it = s.split(',');
+        Some((it.next()?.parse().ok()?, it.next()?.parse().ok()?))
+    });
+    // skip everything up to and including this (input, target, route) inside the fine range
+    let skip_to: Option<(u64, usize, usize)> = arg_after(&args.extra, "--after").and_then(|s| {
+        let mut it = s.split(',');
+        Some((it.next()?.parse().ok()?, it.next()?.parse().ok()?, it.next()?.parse().ok()?))
+    });
+    let tier = args.tier;
+    let worker = std::thread::Builder::new()
+        .name("c04-decode".into())
+        .stack_size(2 << 20)
+        .spawn(move || {
+            vcommon::quiet_panics();
+            let tgts = targets();
+            let vi = tgts.iter().position(|t| t.ty_sig == "v").expect("v target");
+            let fds = FdTable::new(2);
+            let mut part = Part::new();
+            println!("HELLO {} targets={}", config_name(), tgts.len());
+            let mut last_cursor = u64::MAX;
+            for_each_input(tier, &tgts, |idx, inp| {
+                if idx % n != k || idx < from {
+                    return;
+                }
+                let is_fine = fine.map(|(a, b)| idx >= a && idx < b).unwrap_or(false);
+                if !is_fine && (last_cursor == u64::MAX || idx >= last_cursor + BATCH * n) {
+                    part.flush();
+                    println!("CURSOR {idx}");
+                    last_cursor = idx;
+                }
+                if is_fine {
+                    if let Some((si, sti, sr)) = skip_to {
+                        if idx == si {
+                            // resume inside this input after the crashing (target, route)
+                            eval_input(&mut part, idx, inp, &tgts, vi, &fds, true, Some((sti, sr)));
+                            part.flush();
+                            return;
+                        }
+                    }
+                }
+                eval_input(&mut part, idx, inp, &tgts, vi, &fds, is_fine, None);
+                if is_fine {
+                    part.flush();
+                }
+            });
+            part.flush();
+            println!("DONE {}", config_name());
+        })
+        .expect("spawn worker");
+    match worker.join() {
+        Ok(()) => 0,
+        Err(e) => {
+            let msg = e.downcast_ref::<String>().cloned().or_else(|| e.downcast_ref::<&str>().map(|s| s.to_string())).unwrap_or_default();
+            println!("WORKER-PANIC {msg} at {}", vcommon::last_panic_location());
+            3
+        }
+    }
+}
+
+/// Decode exactly one (input, target, route) and print what happens (used by --replay, in a child).
+fn child_one(args: &Args) -> i32 {
+    let Some(spec) = arg_after(&args.extra, "--one") else { return 2 };
+    let r: J = serde_json::from_str(spec).unwrap_or(J::Null);
+    let bytes = vcommon::unhex(r["bytes"].as_str().unwrap_or(""));
+    let fmt = r["format"].as_str().and_then(Fmt::parse).unwrap_or(Fmt::DBus);
+    let be = r["be"].as_bool().unwrap_or(false);
+    let pos = r["pos"].as_u64().unwrap_or(0) as usize;
+    let target = r["target"].as_str().unwrap_or("v").to_string();
+    let route = r["route"].as_str().unwrap_or("typed").to_string();
+    let worker = std::thread::Builder::new()
+        .stack_size(2 << 20)
+        .spawn(move || {
+            vcommon::quiet_panics();
+            let tgts = targets();
+            let Some(ti) = tgts.iter().position(|t| t.ty_sig == target) else {
+                println!("observed: this build ({}) has no target `{target}`", config_name());
+                return 2;
+            };
+            let ri = match route.as_str() {
+                "typed" => 0,
+                "value-for-signature" => 1,
+                "dynamic-container" => 2,
+                _ => 3,
+            };
+            let fds = FdTable::new(2);
+            let inp = Input { section: "replay", fmt, be, pos, bytes: &bytes, aim: Aim::One(ti) };
+            let mut part = Part::new();
+            let Some(c) = ctx(fmt, be, pos) else {
+                println!("observed: this build ({}) has no {} format", config_name(), fmt.name());
+                return 2;
+            };
+            use std::os::fd::AsFd;
+            let data: Data<'_> = zvariant::serialized::Data::new_borrowed_fds(&bytes[..], c, fds.fds.iter().map(|f| f.as_fd()));
+            println!("decoding {} bytes {} as `{}` via {} [{} {} pos={}] in build {}", bytes.len(), short_hex(&bytes),
+                tgts[ti].ty_sig, route, fmt.name(), if be { "BE" } else { "LE" }, pos, config_name());
+            let ok = eval_one(&mut part, 0, &inp, &data, &tgts[ti], ti, ri, false);
+            println!("peak allocation: {} bytes (bound {})", part.max_peak, ALLOC_BASE + ALLOC_FACTOR * bytes.len());
+            if part.violations.is_empty() {
+                println!("observed: {} — no panic, allocation within the bound", if ok { "decoded and re-encoded" } else { "decoder returned an error" });
+                0
+            } else {
+                for v in &part.violations {
+                    println!("observed: VIOLATION {} — {}", v["clause"].as_str().unwrap_or(""), v["detail"].as_str().unwrap_or(""));
+                }
+                1
+            }
+        })
+        .expect("spawn");
+    worker.join().unwrap_or(3)
+}
+
+// ------------------------------------------------------------------------------------------
+// parent
+// ------------------------------------------------------------------------------------------
+
+fn zv_bins() -> Vec<(String, String)> {
+    let mut out = vec![];
+    if let Ok(s) = std::env::var("ZV_BINS") {
+        for item in s.split(',').filter(|x| !x.is_empty()) {
+            if let Some((k, v)) = item.split_once('=') {
+                out.push((k.to_string(), v.to_string()));
+            }
+        }
+    }
+    out
+}
+
+struct ChildRun {
+    status: std::process::ExitStatus,
+    last_cursor: Option<(u64, Option<(usize, usize)>)>,
+    done: bool,
+    stderr_tail: String,
+}
+
+fn run_child(bin: &str, tier: vcommon::Tier, extra: &[String], mut on_part: impl FnMut(&J), hello: &mut Option<String>) -> ChildRun {
+    use std::io::{BufRead, BufReader, Read};
+    use std::process::{Command, Stdio};
+    let errpath = vcommon::verif_root().join(".run");
+    let _ = std::fs::create_dir_all(&errpath);
+    let errfile = errpath.join(format!("c04-{}-{:x}.err", std::process::id(), hash64(&(bin, extra))));
+    let ef = std::fs::File::create(&errfile).unwrap_or_else(|e| vcommon::machinery_failure(&format!("C04: {e}")));
+    let mut child = Command::new(bin)
+        .arg("C04")
+        .arg("--tier")
+        .arg(tier.as_str())
+        .args(extra)
+        .stdin(Stdio::null())
+        .stdout(Stdio::piped())
+        .stderr(Stdio::from(ef))
+        .spawn()
+        .unwrap_or_else(|e| vcommon::machinery_failure(&format!("C04: cannot start {bin}: {e}")));
+    let out = child.stdout.take().unwrap();
+    let mut last_cursor = None;
+    let mut done = false;
+    for line in BufReader::new(out).lines() {
+        let Ok(line) = line else { break };
+        if let Some(rest) = line.strip_prefix("CURSOR ") {
+            let mut it = rest.split(' ');
+            let idx: u64 = it.next().and_then(|s| s.parse().ok()).unwrap_or(0);
+            let t = it.next().and_then(|s| s.parse().ok());
+            let r = it.next().and_then(|s| s.parse().ok());
+            last_cursor = Some((idx, t.zip(r)));
+        } else if let Some(rest) = line.strip_prefix("PART ") {
+            if let Ok(j) = serde_json::from_str::<J>(rest) {
+                on_part(&j);
+            }
+        } else if let Some(rest) = line.strip_prefix("HELLO ") {
+            *hello = Some(rest.to_string());
+        } else if line.starts_with("DONE") {
+            done = true;
+        } else if line.starts_with("WORKER-PANIC") {
+            vcommon::machinery_failure(&format!("C04: harness bug in child {bin} {extra:?}: {line}"));
+        }
+    }
+    let status = child.wait().unwrap_or_else(|e| vcommon::machinery_failure(&format!("C04: wait: {e}")));
+    let mut tail = String::new();
+    if let Ok(mut f) = std::fs::File::open(&errfile) {
+        let _ = f.read_to_string(&mut tail);
+    }
+    let _ = std::fs::remove_file(&errfile);
+    let tail: String = tail.lines().rev().take(4).collect::<Vec<_>>().into_iter().rev().collect::<Vec<_>>().join(" | ");
+    ChildRun { status, last_cursor, done, stderr_tail: tail }
+}
+
+fn crash_kind(run: &ChildRun) -> String {
+    use std::os::unix::process::ExitStatusExt;
+    if run.stderr_tail.contains("overflowed its stack") || run.stderr_tail.contains("stack overflow") {
+        return "stack-overflow".into();
+    }
+    if run.stderr_tail.contains("memory allocation of") {
+        return "allocation-failure-abort".into();
+    }
+    match run.status.signal() {
+        Some(s) => format!("signal-{s}"),
+        None => format!("exit-{}", run.status.code().unwrap_or(-1)),
+    }
+}
+
+fn child_describe(args: &Args) -> i32 {
+    let Some(spec) = arg_after(&args.extra, "--describe") else { return 2 };
+    let mut it = spec.split(',');
+    let idx: u64 = it.next().and_then(|s| s.parse().ok()).unwrap_or(0);
+    let ti: usize = it.next().and_then(|s| s.parse().ok()).unwrap_or(0);
+    let route: usize = it.next().and_then(|s| s.parse().ok()).unwrap_or(0);
+    let tgts = targets();
+    let mut found = None;
+    for_each_input(args.tier, &tgts, |i, inp| {
+        if i == idx {
+            let rname = if route == 3 { "typed-option-as-array" } else { ROUTES[route.min(2)] };
+            found = Some(json!({"payload": replay_payload(inp, &tgts[ti.min(tgts.len() - 1)].ty_sig, rname),
+                                "section": inp.section, "len": inp.bytes.len()}));
+        }
+    });
+    match found {
+        Some(j) => {
+            println!("DESCRIBE {j}");
+            0
+        }
+        None => 2,
+    }
+}
+
+fn describe_via_child(bin: &str, tier: vcommon::Tier, idx: u64, ti: usize, route: usize) -> J {
+    let out = std::process::Command::new(bin)
+        .arg("C04")
+        .arg("--tier")
+        .arg(tier.as_str())
+        .arg("--describe")
+        .arg(format!("{idx},{ti},{route}"))
+        .output();
+    if let Ok(o) = out {
+        for line in String::from_utf8_lossy(&o.stdout).lines() {
+            if let Some(rest) = line.strip_prefix("DESCRIBE ") {
+                if let Ok(j) = serde_json::from_str::<J>(rest) {
+                    return j;
+                }
+            }
+        }
+    }
+    J::Null
+}
+
+fn merge_part(report: &Report, j: &J, nontrivial: &std::sync::atomic::AtomicU64, max_peak: &std::sync::atomic::AtomicU64) {
+    use std::sync::atomic::Ordering;
+    report.eval(j["evals"].as_u64().unwrap_or(0));
+    report.add("inputs", j["inputs"].as_u64().unwrap_or(0));
+    nontrivial.fetch_add(j["nontrivial"].as_u64().unwrap_or(0), Ordering::Relaxed);
+    max_peak.fetch_max(j["max_peak"].as_u64().unwrap_or(0), Ordering::Relaxed);
+    if let Some(o) = j["outcomes"].as_object() {
+        for (k, n) in o {
+            report.outcome_n(k, n.as_u64().unwrap_or(0));
+        }
+    }
+    for s in j["samples"].as_array().into_iter().flatten() {
+        report.sample(s.clone());
+    }
+    for v in j["violations"].as_array().into_iter().flatten() {
+        let mut viol = Violation::new(
+            v["clause"].as_str().unwrap_or("?"),
+            v["detail"].as_str().unwrap_or("").to_string(),
+            v["replay"].clone(),
+        );
+        if let Some(f) = v["features"].as_object() {
+            for (k, val) in f {
+                viol = viol.feat(k, val.as_str().unwrap_or(""));
+            }
+        }
+        report.violation(viol);
+    }
+}
+
+fn replay(path: &str) -> i32 {
+    let art = vcommon::load_replay(path);
+    let r = &art["replay"];
+    let config = r["config"].as_str().unwrap_or("gv");
+    let bins = zv_bins();
+    let bin = bins
+        .iter()
+        .find(|(k, _)| k == config)
+        .map(|(_, v)| v.clone())
+        .or_else(|| {
+            if config == config_name() {
+                std::env::current_exe().ok().map(|p| p.display().to_string())
+            } else {
+                None
+            }
+        })
+        .unwrap_or_else(|| {
+            vcommon::machinery_failure(&format!(
+                "C04 replay: the `{config}` build of zv is not available (run through ./check C04 --replay <path>, which builds all four)"
+            ))
+        });
+    println!("replay C04 in a child process of the `{config}` build");
+    let st = std::process::Command::new(&bin)
+        .arg("C04")
+        .arg("--one")
+        .arg(r.to_string())
+        .status()
+        .unwrap_or_else(|e| vcommon::machinery_failure(&format!("C04 replay: {e}")));
+    use std::os::unix::process::ExitStatusExt;
+    match (st.code(), st.signal()) {
+        (Some(0), _) => 0,
+        (Some(1), _) => 1,
+        (Some(c), _) => {
+            println!("observed: child exited with status {c}");
+            1
+        }
+        (None, Some(s)) => {
+            println!("observed: child was killed by signal {s} (abort / stack overflow) — VIOLATION no-abort");
+            1
+        }
+        _ => 1,
+    }
+}
+
+pub fn main(args: &Args) -> i32 {
+    if args.extra.iter().any(|a| a == "--child") {
+        return child_main(args);
+    }
+    if args.extra.iter().any(|a| a == "--one") {
+        return child_one(args);
+    }
+    if args.extra.iter().any(|a| a == "--describe") {
+        return child_describe(args);
+    }
+    if let Some(p) = &args.replay {
+        return replay(p);
+    }
+    let report = Report::new("C04", args.tier, args.seed, "exploration");
+    let mut bins = zv_bins();
+    if bins.is_empty() {
+        // stand-alone run of one binary: check this build only
+        let me = std::env::current_exe().map(|p| p.display().to_string()).unwrap_or_default();
+        bins.push((config_name().to_string(), me));
+        report.cap(format!("ZV_BINS not set: only the `{}` build was checked (use ./check C04)", config_name()));
+    }
+    for want in ["plain", "gv", "oaa", "gv-oaa"] {
+        if !bins.iter().any(|(k, _)| k == want) {
+            report.cap(format!("feature build `{want}` not provided"));
+        }
+    }
+    let workers = vcommon::n_workers();
+    let shards = (workers / bins.len()).max(1) as u64;
+    let nontrivial = std::sync::atomic::AtomicU64::new(0);
+    let max_peak = std::sync::atomic::AtomicU64::new(0);
+    let crashes = std::sync::atomic::AtomicU64::new(0);
+    let jobs: Vec<(String, String, u64)> = bins
+        .iter()
+        .flat_map(|(c, b)| (0..shards).map(move |k| (c.clone(), b.clone(), k)))
+        .collect();
+    let tier = args.tier;
+    std::thread::scope(|s| {
+        for (config, bin, k) in &jobs {
+            let report = &report;
+            let nontrivial = &nontrivial;
+            let max_peak = &max_peak;
+            let crashes = &crashes;
+            s.spawn(move || {
+                let mut from = 0u64;
+                let mut fine: Option<(u64, u64)> = None;
+                let mut after: Option<(u64, usize, usize)> = None;
+                let mut n_crashes = 0;
+                loop {
+                    let mut extra = vec!["--child".to_string(), format!("{k}/{shards}"), "--from".into(), from.to_string()];
+                    if let Some((a, b)) = fine {
+                        extra.push("--fine".into());
+                        extra.push(format!("{a},{b}"));
+                    }
+                    if let Some((i, t, r)) = after {
+                        extra.push("--after".into());
+                        extra.push(format!("{i},{t},{r}"));
+                    }
+                    let mut hello = None;
+                    let run = run_child(bin, tier, &extra, |j| merge_part(report, j, nontrivial, max_peak), &mut hello);
+                    if let Some(h) = &hello {
+                        if !h.starts_with(&format!("{config} ")) {
+                            vcommon::machinery_failure(&format!("C04: binary for `{config}` reports build `{h}`"));
+                        }
+                    }
+                    if run.done && run.status.success() {
+                        break;
+                    }
+                    // abnormal end
+                    let Some((idx, tr)) = run.last_cursor else {
+                        vcommon::machinery_failure(&format!(
+                            "C04: child {config} {k}/{shards} died before its first cursor: {:?} {}",
+                            run.status, run.stderr_tail
+                        ));
+                    };
+                    match tr {
+                        None => {
+                            // coarse cursor: re-run this batch in single-step mode
+                            from = idx;
+                            fine = Some((idx, idx + BATCH * shards));
+                            after = None;
+                        }
+                        Some((ti, route)) => {
+                            n_crashes += 1;
+                            crashes.fetch_add(1, std::sync::atomic::Ordering::Relaxed);
+                            let kind = crash_kind(&run);
+                            let d = describe_via_child(bin, tier, idx, ti, route);
+                            let p = &d["payload"];
+                            report.outcome(&format!("{}/child-died:{kind}", p["format"].as_str().unwrap_or("?")));
+                            report.violation(
+                                Violation::new(
+                                    "no-abort",
+                                    format!(
+                                        "[{config}] {} {} bytes {} as `{}` via {}: the decoding process died ({kind}; {:?}; stderr: {})",
+                                        p["format"].as_str().unwrap_or("?"),
+                                        d["len"].as_u64().unwrap_or(0),
+                                        short_hex(&vcommon::unhex(p["bytes"].as_str().unwrap_or(""))),
+                                        p["target"].as_str().unwrap_or("?"),
+                                        p["route"].as_str().unwrap_or("?"),
+                                        run.status,
+                                        run.stderr_tail
+                                    ),
+                                    p.clone(),
+                                )
+                                .feat("format", p["format"].as_str().unwrap_or("?"))
+                                .feat("config", config)
+                                .feat("death", &kind)
+                                .feat("section", d["section"].as_str().unwrap_or("?")),
+                            );
+                            from = idx;
+                            if fine.map(|(_, b)| idx >= b).unwrap_or(true) {
+                                fine = Some((idx, idx + 1));
+                            }
+                            after = Some((idx, ti, route));
+                            if n_crashes > 60 {
+                                report.cap(format!("child {config} {k}/{shards}: more than 60 crashes, shard abandoned at input {idx}"));
+                                break;
+                            }
+                        }
+                    }
+                }
+            });
+        }
+    });
+    report.set("distinct_nontrivial", json!(nontrivial.load(std::sync::atomic::Ordering::Relaxed)));
+    report.set("max_peak_allocation_bytes", json!(max_peak.load(std::sync::atomic::Ordering::Relaxed)));
+    report.set("child_crashes", json!(crashes.load(std::sync::atomic::Ordering::Relaxed)));
+    report.set("builds", json!(bins.iter().map(|(k, _)| k.clone()).collect::<Vec<_>>()));
+    report.set("shards_per_build", json!(shards));
+    report.assume("children decode on a 2 MiB thread stack; a panic is caught per case, any other death of the child is attributed to the (input, target) named by the last cursor line");
+    report.assume("allocation is measured per decode by a counting global allocator (thread-local peak of live bytes since the decode started); bound 64 KiB + 64 × input length");
+    if args.tier == vcommon::Tier::Quick {
+        report.cap("quick tier: strings ≤ 4 (≤ 5 for the signature alphabet), three values per type in the variant-mutation corpus, single substitutions only");
+    }
+    report.finish(
+        "every (input, target type, route) over the four feature builds; inputs = exhaustive strings, mutations/truncations of valid encodings, structural stress; non-trivial = an input that at least one target decodes successfully (distinct per build)",
+        true,
+    )
 }
